@@ -116,10 +116,22 @@ def replay_case(case):
     warnings.filterwarnings("ignore")
     det, entry, cont, dtype, idx, cols, p, halves = (case[k] for k in ("det", "entry", "cont", "dtype", "idx", "cols", "p", "halves"))
     fails = []
-    V = values(p, halves)
+    # integer-typed input also with LARGE magnitudes (values around 1e8, still exact in float64): integer arithmetic
+    # on prefix sums must not overflow where the float path is fine
+    mags = [1.0, 1e8] if dtype == "int64" else [1.0]
+    for mag in mags:
+        fails += _replay_one(case, values(p, halves) * mag, "" if mag == 1.0 else "x1e8")
+    return fails
+
+
+def _replay_one(case, V, magtag):
+    det, entry, cont, dtype, idx, cols, p, halves = (case[k] for k in ("det", "entry", "cont", "dtype", "idx", "cols", "p", "halves"))
+    fails = []
     A, B = V[:N_ROWS], V[N_ROWS:]
     for cls, params in detector_for(det):
-        tag = {"detector": det, "params": repr(params)[:120], "entry": entry, "rep": [cont, dtype, idx, cols]}
+        if magtag and any("param" in repr(v) for v in params.values()):
+            continue  # fixed-parameter scorers describe data of unit scale
+        tag = {"detector": det, "params": repr(params)[:120], "entry": entry, "rep": [cont, dtype, idx, cols], "magnitude": magtag}
         if params.get("collective_penalty") == "intermediate" and p < 2:
             continue
         canon_idx = idx if entry == "update" and cont in ("series", "frame") else "range0"
@@ -197,13 +209,14 @@ def replay_scorers(args):
     cont, dtype, idx, cols, p, halves = args
     fails = []
     n_eval = 0
-    V = values(p, halves)[:N_ROWS]
-    for name, mk, cuts in scorer_cases():
+    for name, mk, cuts, mag in [(n_, m_, c_, 1.0) for n_, m_, c_ in scorer_cases()] + \
+            ([(n_ + " x1e8", m_, c_, 1e8) for n_, m_, c_ in scorer_cases() if "(0" not in n_ and "(1" not in n_] if dtype == "int64" else []):
+        V = values(p, halves)[:N_ROWS] * mag
         n_eval += 1
         try:
             a = mk().fit(represent(V, "frame", "float64", "range0", "default")).evaluate(np.array(cuts))
             b = mk().fit(represent(V, cont, dtype, idx, cols)).evaluate(np.array(cuts))
-            if a.shape != b.shape or not np.allclose(a, b, rtol=1e-10, atol=1e-10):
+            if a.shape != b.shape or not np.allclose(a, b, rtol=1e-9, atol=1e-10 * mag * mag):
                 fails.append(("scorer_output_differs", {"scorer": name, "rep": [cont, dtype, idx, cols], "canonical": a.tolist(), "got": b.tolist()}))
         except Exception as e:
             fails.append(("raises", {"scorer": name, "rep": [cont, dtype, idx, cols], "error": repr(e)[:200]}))
